@@ -759,7 +759,7 @@ func runC19(r *Run) {
 	// a case runs bash up to three times (each bounded by 40 s and reported inconclusive on timeout):
 	// keep the per-case watchdog above that so a loaded machine never shows up as a `hang`
 	r.CaseTimeout = 150 * time.Second
-	r.Rule = "real bash runs of generated hook scripts that source the repository's shell_lib.sh + frameworks/shell/*.sh: (1) exhaustive single-context cases = every context kind (onStartup, Synchronization, Event Added/Modified/Deleted, Group, Schedule, Validating, Mutating, Conversion) x every subset of its documented candidates + __main__ (76 cases); (2) random arrays of 0..6 contexts of every kind incl. odd shapes (unknown type, no type, no binding, unknown watchEvent, onStartup with a type), random subsets of candidate functions plus decoy functions of other bindings/kinds, failures scripted by context index or handler name ending with return 3 / exit 2 / `false` under set -e, args none / --config / other; thorough adds all ordered pairs of kinds x {all specific handlers, only __main__, nothing for the first, nothing for the second} x failure at {none, first, second}. Every defined function also gets a place it looks at the current context from (its own shell: $(…), ( … ), a pipeline element, a background job; or a NEW PROGRAM: an executable helper script that sources the library again and calls context::jq or context::get, bash -c, the helper two execs deep, the helper started through env | xargs), and 15 % of the hooks are started with a stale BINDING_CONTEXT_CURRENT_* selection in their environment; corpus cases 8 (one function, helper script, three contexts) and 9 (one context per way of looking, last handler fails, with and without a stale inherited selection). Every hook also has a script layout (the bundled library loaded before the hook's own definitions / after them / before and a second time through a shared include / only through the include / between the definitions; block of every layout x {--config, dispatch, x --config, --config x}) and 35 % of the hooks inherit one to four variables from the operator's environment (LOG_LEVEL=debug|info|error|trace, LOG_TYPE, DEBUG*, SHELL_OPERATOR_*, KUBE_* ... and names the framework uses as plain shell variables: i, CONTEXT_LENGTH, HANDLERS, handler, handlers, f, frame, ret; a block runs every variable of the pool with an array of 2..5 contexts); corpus cases 10 (every layout: --config and a two-context dispatch) and 11 (LOG_LEVEL=debug with three / five contexts), 12 (thirteen contexts), 13 (second execution with the same binding-context path after a run of a hook that has its own EXIT trap; 10 % of the random arrays are preceded by such a run for another array). A run that has logged more than 3n+12 invocations for n contexts is stopped and judged on its log (a dispatch loop that does not advance). Observation: (index, handler, context read through context::jq, and index / context / binding seen from where the handler looks) per invocation in order, config marker on stdout, exit status; plus the output of hook::_get_possible_handler_names per context. Non-trivial: at least one context and not --config; distinct = distinct op-line sequences."
+	r.Rule = "real bash runs of generated hook scripts that source the repository's shell_lib.sh + frameworks/shell/*.sh: (1) exhaustive single-context cases = every context kind (onStartup, Synchronization, Event Added/Modified/Deleted, Group, Schedule, Validating, Mutating, Conversion) x every subset of its documented candidates + __main__ (76 cases); (1c) runs of ONE binding: every ordered pair and triple a,b,a of Synchronization / Added / Modified / Deleted contexts of the same binding x three definition modes (48 cases), and 35 % of the contexts of a random array repeat the binding of the context before them; (2) random arrays of 0..6 contexts of every kind incl. odd shapes (unknown type, no type, no binding, unknown watchEvent, onStartup with a type), random subsets of candidate functions plus decoy functions of other bindings/kinds, failures scripted by context index or handler name ending with return 3 / exit 2 / `false` under set -e, args none / --config / other; thorough adds all ordered pairs of kinds x {all specific handlers, only __main__, nothing for the first, nothing for the second} x failure at {none, first, second}. Every defined function also gets a place it looks at the current context from (its own shell: $(…), ( … ), a pipeline element, a background job; or a NEW PROGRAM: an executable helper script that sources the library again and calls context::jq or context::get, bash -c, the helper two execs deep, the helper started through env | xargs), and 15 % of the hooks are started with a stale BINDING_CONTEXT_CURRENT_* selection in their environment; corpus cases 8 (one function, helper script, three contexts) and 9 (one context per way of looking, last handler fails, with and without a stale inherited selection). Every hook also has a script layout (the bundled library loaded before the hook's own definitions / after them / before and a second time through a shared include / only through the include / between the definitions; block of every layout x {--config, dispatch, x --config, --config x}) and 35 % of the hooks inherit one to four variables from the operator's environment (LOG_LEVEL=debug|info|error|trace, LOG_TYPE, DEBUG*, SHELL_OPERATOR_*, KUBE_* ... and names the framework uses as plain shell variables: i, CONTEXT_LENGTH, HANDLERS, handler, handlers, f, frame, ret; a block runs every variable of the pool with an array of 2..5 contexts); corpus cases 10 (every layout: --config and a two-context dispatch) and 11 (LOG_LEVEL=debug with three / five contexts), 12 (thirteen contexts), 13 (second execution with the same binding-context path after a run of a hook that has its own EXIT trap; 10 % of the random arrays are preceded by such a run for another array). A run that has logged more than 3n+12 invocations for n contexts is stopped and judged on its log (a dispatch loop that does not advance). Observation: (index, handler, context read through context::jq, and index / context / binding seen from where the handler looks) per invocation in order, config marker on stdout, exit status; plus the output of hook::_get_possible_handler_names per context. Non-trivial: at least one context and not --config; distinct = distinct op-line sequences."
 	bindings := []string{"pods", "monitor-pods", "cfg.v1", "kubernetes", "schedule", "a_b", "main", "every*min", "x[1]", "what?"}
 	groups := []string{"g1", "grp-a", "pods"}
 
@@ -997,6 +997,59 @@ func runC19(r *Run) {
 		c19Run(r, c, c19Case{ctxs: []c19Ctx{pre, x, post}, defined: def, failMode: "return3", looks: c19RandLooks(rng, def, 70)}, "a")
 	})
 
+	// (1c) runs of one binding: every ordered pair and every triple a,b,a of {Synchronization, Added, Modified, Deleted}
+	// contexts of the SAME binding x {every specific handler of all of them + __main__, the handlers of the last
+	// context only, the most specific handler of each}: consecutive contexts that agree in binding and type and
+	// differ only in watchEvent must each get their own candidates
+	type sameb struct {
+		ks   []string
+		mode int
+	}
+	var samebs []sameb
+	fam := []string{"sync", "added", "modified", "deleted"}
+	for _, a := range fam {
+		for _, b := range fam {
+			if a == b {
+				continue
+			}
+			for mode := 0; mode < 3; mode++ {
+				samebs = append(samebs, sameb{[]string{a, b}, mode})
+			}
+			samebs = append(samebs, sameb{[]string{a, b, a}, 2})
+		}
+	}
+	r.Extra["same_binding_run_cases"] = len(samebs)
+	r.Cases(500, len(samebs), 0, func(c *Case, rng *Rng) {
+		z := samebs[c.Idx-500]
+		b := PickOne(rng, bindings)
+		var k c19Case
+		var def []string
+		for i, kd := range z.ks {
+			x := c19Make(kd, b, "")
+			k.ctxs = append(k.ctxs, x)
+			switch z.mode {
+			case 0:
+				def = append(def, x.cands()...)
+			case 1:
+				if i == len(z.ks)-1 {
+					def = append(def, x.cands()...)
+				}
+			case 2:
+				def = append(def, x.cands()[0])
+			}
+		}
+		if z.mode == 0 {
+			def = append(def, "__main__")
+		}
+		k.defined = uniqSorted(def)
+		k.failMode = "return3"
+		k.looks = c19RandLooks(rng, k.defined, 40)
+		c.Desc = fmt.Sprintf("same-binding run %v mode=%d binding=%s", z.ks, z.mode, b)
+		c.Nontrivial = true
+		c.Note("run:same-binding")
+		c19Run(r, c, k, "a")
+	})
+
 	// (2) random arrays
 	allKinds := append(append([]string{}, c19Kinds...), "event-other", "event-none", "type-other", "no-type", "no-binding", "startup-typed", "conversion-plain")
 	r.Cases(1000, r.N(260, 3000), 0, func(c *Case, rng *Rng) {
@@ -1011,7 +1064,20 @@ func runC19(r *Run) {
 			if rng.Chance(20) {
 				kd = PickOne(rng, allKinds)
 			}
-			x := c19Make(kd, PickOne(rng, bindings), PickOne(rng, groups))
+			b, g := PickOne(rng, bindings), PickOne(rng, groups)
+			if i > 0 && k.ctxs[i-1].kind != "startup" && rng.Chance(35) {
+				// a run: what the operator combines into one array is mostly consecutive contexts of ONE binding
+				// (and group) — the same binding again, most often another event of it
+				b, g = k.ctxs[i-1].binding, k.ctxs[i-1].group
+				if g == "" {
+					g = PickOne(rng, groups)
+				}
+				if rng.Chance(70) {
+					kd = PickOne(rng, []string{"sync", "added", "modified", "deleted", "event-other", "event-none"})
+				}
+				c.Note("run:same-binding")
+			}
+			x := c19Make(kd, b, g)
 			x.decoy = rng.Chance(25)
 			k.ctxs = append(k.ctxs, x)
 			pool = append(pool, x.cands()...)
